@@ -35,12 +35,12 @@ def run(ctx):
   ctx.rule = ("data on a 2^-10 grid; translation by a dyadic vector (all 17 estimators), swap of the two points inside any "
               "training pair / both pairs of a quadruplet (ITML, MMC, SDML, LSML), permutation of the samples (Covariance, RCA), "
               "orthogonal map Q = signed permutation x (3/5, 4/5) rotation (Covariance, RCA, LFDA, LMNN identity init, ITML, "
-              "LSML, MMC with identity / covariance prior), scaling by c > 0 (Covariance, RCA): learned distances on "
+              "LSML, MMC with identity / covariance prior), scaling by c = 2^-30 .. 2^30 (Covariance, RCA with and without n_components); training arrays in C / Fortran / tuple-axis-outermost / strided layout; covariance prior / init for ITML, LSML, MMC in half of the runs: learned distances on "
               "corresponding probe pairs compared: bit-identical where the implementation only touches differences and the "
               "prior is data independent, 1e-6 relative otherwise, 1e-4 for L-BFGS learners with few iterations.")
   ctx.trusted = ["Coq 8.16.1 kernel", "models of C09-C15 (no new definitions)", "invariance of the optimum of external optimisers is explored, not proved"]
   ctx.build_property()
-  reps = 4 if thorough else 1
+  reps = 8 if thorough else 3
   EXACT_TRANSLATION = {'ITML', 'MMC', 'SDML', 'LSML'}     # tuple learners with identity prior: differences only
   for rep in range(reps):
     for name in fits.NAMES:
@@ -50,6 +50,14 @@ def run(ctx):
       ctx.hist('label_encoding', data.get('label_encoding', '0..C-1'))
       X, d = data['X'], data['d']
       kw = fits.sdml_fix_balance(name, fits.base_kwargs(name, data), data)
+      # memory layout of the training array (a fresh array for every fit) and, for the tuple learners whose prior can
+      # be computed from the data, the covariance prior
+      data['layout'] = fits.LAYOUTS[int(rng.integers(0, len(fits.LAYOUTS)))]
+      ctx.hist('layout', data['layout'])
+      if name in ('ITML', 'LSML') and rng.random() < 0.5:
+        kw['prior'] = 'covariance'
+      if name == 'MMC' and rng.random() < 0.5:
+        kw['init'] = 'covariance'
       if name in ('NCA', 'MLKR'):
         kw['max_iter'] = 30
       idx = probe_pairs(rng, X)
@@ -69,7 +77,7 @@ def run(ctx):
       try:
         e = fits.fit(name, kw, data_t)
         dt = dists(e, X + t, idx)
-        same = np.array_equal(dt, dref) if name in EXACT_TRANSLATION else close(dt, dref, tol)
+        same = np.array_equal(dt, dref) if (name in EXACT_TRANSLATION and kw.get('prior', 'identity') == 'identity' and kw.get('init', 'identity') == 'identity') else close(dt, dref, tol)
         if not same:
           ctx.fail_input('translation', name + ': translating all points changes the learned distances',
                          dict(estimator=name, X=X.tolist(), t=t.tolist()), observed=dt.tolist(), expected=dref.tolist())
@@ -106,15 +114,20 @@ def run(ctx):
         if not close(dp, dref, 1e-9):
           ctx.fail_input('permutation', name + ': listing the samples in another order changes the learned distances',
                          dict(estimator=name, X=X.tolist(), perm=perm.tolist()), observed=dp.tolist(), expected=dref.tolist())
-        c = float(rng.choice([0.25, 0.5, 2.0, 8.0]))
-        data_c = dict(data)
-        data_c['X'] = X * c
-        ctx.count('scaling', 1)
-        e = fits.fit(name, kw, data_c)
-        dc = dists(e, X * c, idx)
-        if not close(dc, dref, 1e-9):     # distances in the scaled data between scaled points: (x c) M/c^2 (x c) = same
-          ctx.fail_input('scaling', name + ': scaling all features by c does not scale the learned distance by 1/c',
-                         dict(estimator=name, X=X.tolist(), c=c), observed=dc.tolist(), expected=dref.tolist())
+        for c in [float(2.0 ** int(k)) for k in rng.choice([-30, -20, -10, -2, -1, 1, 3, 10, 20, 30], size=3, replace=False)]:
+          for kwc in ([kw] if name == 'Covariance' else [kw, dict(kw, n_components=int(rng.integers(1, d + 1)))]):
+            data_c = dict(data)
+            data_c['X'] = X * c
+            ctx.count('scaling', 1)
+            ctx.hist('scaling.log2c', int(np.log2(c)))
+            r0 = fits.fit(name, kwc, data)
+            e = fits.fit(name, kwc, data_c)
+            dc = dists(e, X * c, idx)
+            d0 = dists(r0, X, idx)
+            if not close(dc, d0, 1e-9):     # distances in the scaled data between scaled points: (x c) M/c^2 (x c) = same
+              ctx.fail_input('scaling', name + ': scaling all features by c does not scale the learned distance by 1/c',
+                             dict(estimator=name, X=X.tolist(), c=c, params={k: str(v)[:30] for k, v in kwc.items()}),
+                             observed=dc.tolist(), expected=d0.tolist())
       # ---- rotation
       rot_ok = name in ('Covariance', 'RCA', 'LFDA', 'ITML', 'LSML', 'MMC', 'LMNN')
       if rot_ok:
@@ -146,6 +159,47 @@ def run(ctx):
             ctx.fail_input('rotation', name + ': mapping all points through an orthogonal Q does not map M to Q^T M Q',
                            dict(estimator=name, X=X.tolist(), Q=Q.tolist(), params={k: str(v)[:30] for k, v in kv.items()}),
                            observed=dr.tolist(), expected=d0.tolist())
+      # ---- tuple learners: every memory layout of the tuple array x {data-independent, covariance} prior, under
+      # translation and within-tuple swap (the reference fit gets a fresh C-ordered array)
+      if name in ('ITML', 'MMC', 'SDML', 'LSML') and rep == 0:
+        pkey = 'init' if name == 'MMC' else 'prior'
+        for pv in ('identity', 'covariance'):
+          kwl = dict(kw)
+          kwl[pkey] = pv
+          if name == 'SDML':
+            try:
+              kwl = fits.sdml_fix_balance(name, {k: v for k, v in kwl.items() if k != 'balance_param'}, data)
+            except Exception:
+              continue
+          d_c = dict(data)
+          d_c['layout'] = 'C'
+          try:
+            r0 = fits.fit(name, kwl, d_c)
+          except Exception:
+            ctx.count('fit_failed', 1)
+            continue
+          d0 = dists(r0, X, idx)
+          for lay in fits.LAYOUTS:
+            d_l = dict(data)
+            d_l['layout'] = lay
+            d_l['X'] = X + t
+            key = 'quad_idx' if name == 'LSML' else 'pairs_idx'
+            ti = data[key].copy()
+            ti[::2] = ti[::2][:, [1, 0, 3, 2]] if name == 'LSML' else ti[::2][:, ::-1]
+            d_l[key] = ti
+            ctx.count('layout_translation_swap', 1)
+            ctx.seen((name, 'layout', lay, pv), True)
+            try:
+              e = fits.fit(name, kwl, d_l)
+              dl = dists(e, X + t, idx)
+            except Exception as ex:
+              ctx.fail_input('translation', '%s(%s=%s): fit on a translated %s-layout tuple array raises %s' % (name, pkey, pv, lay, type(ex).__name__),
+                             dict(estimator=name, layout=lay), observed=str(ex)[:200])
+              continue
+            if not close(dl, d0, 1e-6):
+              ctx.fail_input('translation', '%s(%s=%s): translating all points and swapping within tuples changes the learned distances when the tuple array has layout %s' % (name, pkey, pv, lay),
+                             dict(estimator=name, X=X.tolist(), t=t.tolist(), layout=lay, params={k: str(v)[:30] for k, v in kwl.items()}),
+                             observed=dl.tolist(), expected=d0.tolist())
       ctx.sample(dict(estimator=name, probes=idx[:2].tolist(), distances=dref[:2].tolist()), limit=3)
 
 
